@@ -37,6 +37,36 @@ Plate.vos Plate.vok Plate.required_vos: Plate.v Base.vos Units.vos Contents.vos 
 Prog.vo Prog.glob Prog.v.beautified Prog.required_vo: Prog.v Base.vo Units.vo Contents.vo Container.vo Plate.vo Dilute.vo Solve.vo
 Prog.vio: Prog.v Base.vio Units.vio Contents.vio Container.vio Plate.vio Dilute.vio Solve.vio
 Prog.vos Prog.vok Prog.required_vos: Prog.v Base.vos Units.vos Contents.vos Container.vos Plate.vos Dilute.vos Solve.vos
+ContainerThm2.vo ContainerThm2.glob ContainerThm2.v.beautified ContainerThm2.required_vo: ContainerThm2.v Base.vo Units.vo UnitsThm.vo Contents.vo Container.vo ContainerThm.vo
+ContainerThm2.vio: ContainerThm2.v Base.vio Units.vio UnitsThm.vio Contents.vio Container.vio ContainerThm.vio
+ContainerThm2.vos ContainerThm2.vok ContainerThm2.required_vos: ContainerThm2.v Base.vos Units.vos UnitsThm.vos Contents.vos Container.vos ContainerThm.vos
+PlateThm.vo PlateThm.glob PlateThm.v.beautified PlateThm.required_vo: PlateThm.v Base.vo Units.vo UnitsThm.vo Contents.vo Container.vo ContainerThm.vo ContainerThm2.vo Plate.vo
+PlateThm.vio: PlateThm.v Base.vio Units.vio UnitsThm.vio Contents.vio Container.vio ContainerThm.vio ContainerThm2.vio Plate.vio
+PlateThm.vos PlateThm.vok PlateThm.required_vos: PlateThm.v Base.vos Units.vos UnitsThm.vos Contents.vos Container.vos ContainerThm.vos ContainerThm2.vos Plate.vos
+SizeThm.vo SizeThm.glob SizeThm.v.beautified SizeThm.required_vo: SizeThm.v Base.vo Units.vo UnitsThm.vo Contents.vo Container.vo ContainerThm.vo ContainerThm2.vo Plate.vo PlateThm.vo
+SizeThm.vio: SizeThm.v Base.vio Units.vio UnitsThm.vio Contents.vio Container.vio ContainerThm.vio ContainerThm2.vio Plate.vio PlateThm.vio
+SizeThm.vos SizeThm.vok SizeThm.required_vos: SizeThm.v Base.vos Units.vos UnitsThm.vos Contents.vos Container.vos ContainerThm.vos ContainerThm2.vos Plate.vos PlateThm.vos
+HistoryThm.vo HistoryThm.glob HistoryThm.v.beautified HistoryThm.required_vo: HistoryThm.v Base.vo Units.vo UnitsThm.vo Contents.vo Container.vo ContainerThm.vo ContainerThm2.vo Dilute.vo Solve.vo Plate.vo PlateThm.vo Prog.vo
+HistoryThm.vio: HistoryThm.v Base.vio Units.vio UnitsThm.vio Contents.vio Container.vio ContainerThm.vio ContainerThm2.vio Dilute.vio Solve.vio Plate.vio PlateThm.vio Prog.vio
+HistoryThm.vos HistoryThm.vok HistoryThm.required_vos: HistoryThm.v Base.vos Units.vos UnitsThm.vos Contents.vos Container.vos ContainerThm.vos ContainerThm2.vos Dilute.vos Solve.vos Plate.vos PlateThm.vos Prog.vos
 Props/C06.vo Props/C06.glob Props/C06.v.beautified Props/C06.required_vo: Props/C06.v Base.vo Units.vo UnitsThm.vo GenBase.vo gen/UnitsGen.vo UnitsGenOK.vo
 Props/C06.vio: Props/C06.v Base.vio Units.vio UnitsThm.vio GenBase.vio gen/UnitsGen.vio UnitsGenOK.vio
 Props/C06.vos Props/C06.vok Props/C06.required_vos: Props/C06.v Base.vos Units.vos UnitsThm.vos GenBase.vos gen/UnitsGen.vos UnitsGenOK.vos
+Props/C01.vo Props/C01.glob Props/C01.v.beautified Props/C01.required_vo: Props/C01.v Base.vo Units.vo Contents.vo Container.vo ContainerThm.vo Plate.vo PlateThm.vo
+Props/C01.vio: Props/C01.v Base.vio Units.vio Contents.vio Container.vio ContainerThm.vio Plate.vio PlateThm.vio
+Props/C01.vos Props/C01.vok Props/C01.required_vos: Props/C01.v Base.vos Units.vos Contents.vos Container.vos ContainerThm.vos Plate.vos PlateThm.vos
+Props/C02.vo Props/C02.glob Props/C02.v.beautified Props/C02.required_vo: Props/C02.v Base.vo Units.vo Contents.vo Container.vo ContainerThm.vo ContainerThm2.vo Plate.vo PlateThm.vo SizeThm.vo
+Props/C02.vio: Props/C02.v Base.vio Units.vio Contents.vio Container.vio ContainerThm.vio ContainerThm2.vio Plate.vio PlateThm.vio SizeThm.vio
+Props/C02.vos Props/C02.vok Props/C02.required_vos: Props/C02.v Base.vos Units.vos Contents.vos Container.vos ContainerThm.vos ContainerThm2.vos Plate.vos PlateThm.vos SizeThm.vos
+Props/C03.vo Props/C03.glob Props/C03.v.beautified Props/C03.required_vo: Props/C03.v Base.vo Units.vo Contents.vo Container.vo ContainerThm.vo ContainerThm2.vo Dilute.vo Solve.vo Plate.vo PlateThm.vo Prog.vo HistoryThm.vo
+Props/C03.vio: Props/C03.v Base.vio Units.vio Contents.vio Container.vio ContainerThm.vio ContainerThm2.vio Dilute.vio Solve.vio Plate.vio PlateThm.vio Prog.vio HistoryThm.vio
+Props/C03.vos Props/C03.vok Props/C03.required_vos: Props/C03.v Base.vos Units.vos Contents.vos Container.vos ContainerThm.vos ContainerThm2.vos Dilute.vos Solve.vos Plate.vos PlateThm.vos Prog.vos HistoryThm.vos
+Props/C07.vo Props/C07.glob Props/C07.v.beautified Props/C07.required_vo: Props/C07.v Base.vo Units.vo Contents.vo Container.vo ContainerThm.vo ContainerThm2.vo Plate.vo PlateThm.vo
+Props/C07.vio: Props/C07.v Base.vio Units.vio Contents.vio Container.vio ContainerThm.vio ContainerThm2.vio Plate.vio PlateThm.vio
+Props/C07.vos Props/C07.vok Props/C07.required_vos: Props/C07.v Base.vos Units.vos Contents.vos Container.vos ContainerThm.vos ContainerThm2.vos Plate.vos PlateThm.vos
+Props/C10.vo Props/C10.glob Props/C10.v.beautified Props/C10.required_vo: Props/C10.v Base.vo Units.vo Contents.vo Container.vo ContainerThm.vo ContainerThm2.vo Dilute.vo Solve.vo Plate.vo PlateThm.vo SizeThm.vo Prog.vo HistoryThm.vo
+Props/C10.vio: Props/C10.v Base.vio Units.vio Contents.vio Container.vio ContainerThm.vio ContainerThm2.vio Dilute.vio Solve.vio Plate.vio PlateThm.vio SizeThm.vio Prog.vio HistoryThm.vio
+Props/C10.vos Props/C10.vok Props/C10.required_vos: Props/C10.v Base.vos Units.vos Contents.vos Container.vos ContainerThm.vos ContainerThm2.vos Dilute.vos Solve.vos Plate.vos PlateThm.vos SizeThm.vos Prog.vos HistoryThm.vos
+Props/C17.vo Props/C17.glob Props/C17.v.beautified Props/C17.required_vo: Props/C17.v Base.vo Units.vo Contents.vo Container.vo ContainerThm.vo ContainerThm2.vo Plate.vo PlateThm.vo
+Props/C17.vio: Props/C17.v Base.vio Units.vio Contents.vio Container.vio ContainerThm.vio ContainerThm2.vio Plate.vio PlateThm.vio
+Props/C17.vos Props/C17.vok Props/C17.required_vos: Props/C17.v Base.vos Units.vos Contents.vos Container.vos ContainerThm.vos ContainerThm2.vos Plate.vos PlateThm.vos
